@@ -34,7 +34,9 @@ MaxOfSet(S) == CHOOSE x \in S : \A y \in S : y <= x
 (***************************************************************************)
 (* Configurations.                                                         *)
 (***************************************************************************)
-NCat == Len(Cat)
+\* the first NSmall grids of the catalogue are combined exhaustively (NSmall = Len(Cat) unless the catalogue also
+\* carries the large grids of BigCfgs, see "LARGE products" below)
+NCat == NSmall
 GSize(g) == Len(Cat[g].w)
 RECURSIVE Pow(_, _)
 Pow(b, e) == IF e = 0 THEN 1 ELSE b * Pow(b, e - 1)
@@ -62,8 +64,9 @@ WOf(cf, mi) == ProdSeq([d \in 1..cf.nd |-> Cat[Dom(cf)[d]].w[mi[d]]], 1)
 POf(cf, mi) == [d \in 1..cf.nd |-> Cat[Dom(cf)[d]].p[mi[d]]]
 
 \* the finite family of integer polynomial integrands; pts = one point per domain
-S(p) == IF Len(p) = 1 THEN p[1] ELSE p[1] + 2 * p[2] - p[3]
-Qd(p) == IF Len(p) = 1 THEN p[1] * p[1] ELSE p[1] * p[2] + p[3] * p[3]
+\* (points of length 2 - planar grids - were added by the C18 audit; lengths 1 and 3 as before)
+S(p) == IF Len(p) = 1 THEN p[1] ELSE IF Len(p) = 2 THEN p[1] + 2 * p[2] ELSE p[1] + 2 * p[2] - p[3]
+Qd(p) == IF Len(p) = 1 THEN p[1] * p[1] ELSE IF Len(p) = 2 THEN p[1] * p[2] - p[2] ELSE p[1] * p[2] + p[3] * p[3]
 RECURSIVE SumTo(_, _)      \* sum_{d = 1..n} term[d]
 SumTo(term, n) == IF n = 0 THEN 0 ELSE SumTo(term, n - 1) + term[n]
 NF == 6
@@ -94,7 +97,8 @@ ProductOfSingles(cf, fi) == ProdSeq([d \in 1..cf.nd |-> Single(cf, fi, d)], 1)
 \* MultiDomainGrid.size as coded
 SizeCode(cf) == IF Len(cf.gl) = 1 THEN Pow(GSize(cf.gl[1]), cf.nd) ELSE ProdSeq([d \in 1..Len(cf.gl) |-> GSize(cf.gl[d])], 1)
 \* itertools.product as an odometer over index tuples
-First(sizes) == [done |-> FALSE, mi |-> [d \in 1..Len(sizes) |-> 1]]
+\* (a factor without elements - a grid of size 0 - makes the product empty from the start)
+First(sizes) == [done |-> \E d \in 1..Len(sizes) : sizes[d] = 0, mi |-> [d \in 1..Len(sizes) |-> 1]]
 Adv(od, sizes) ==
     LET cand == {d \in 1..Len(sizes) : od.mi[d] < sizes[d]} IN
     IF cand = {} THEN [done |-> TRUE, mi |-> od.mi]
@@ -110,6 +114,7 @@ Take(od, sizes, c) ==
 (***************************************************************************)
 (* State machine.                                                          *)
 (***************************************************************************)
+Huge == 1000000000            \* a chunk size far beyond every total (one chunk takes everything)
 VARIABLES n_pc, n_k, n_fi, n_route, n_chunk, n_acc, n_odw, n_odv, n_cw, n_cv, n_cnt, n_drop, n_short
 vars == <<n_pc, n_k, n_fi, n_route, n_chunk, n_acc, n_odw, n_odv, n_cw, n_cv, n_cnt, n_drop, n_short>>
 CF == Configs[n_k]
@@ -129,7 +134,7 @@ PickRun ==
     /\ \E fi \in 1..NF :
          /\ n_fi' = fi
          /\ \/ n_route' = "vec" /\ n_chunk' = 0
-            \/ n_route' = "pbp" /\ \E c \in 1..Total(CF) + 1 : n_chunk' = c
+            \/ n_route' = "pbp" /\ \E c \in (1..Total(CF) + 1) \cup {Huge} : n_chunk' = c
     /\ n_pc' = "start"
     /\ UNCHANGED <<n_k, n_acc, n_odw, n_odv, n_cw, n_cv, n_cnt, n_drop, n_short>>
 
@@ -240,12 +245,160 @@ CfgAgrees == /\ O.st = "ok" /\ O.nd = CF.nd /\ O.size = Total(CF)
 ObsCfgConforms ==
     n_pc = "cfg" /\ HasObs =>
         CfgAgrees \/ PrintT(<<"MISMATCH", "cfg", n_k, CF, O.st, O.nd, O.size, Total(CF)>>)
+PbpIdx(c) == IF c = Huge THEN Total(CF) + 2 ELSE c      \* position of chunk size c in O.pbp[fi]
 RunAgrees ==
     IF n_route = "vec"
       THEN O.vec[n_fi] = NestedSum(CF, n_fi) /\ O.dflt[n_fi] = NestedSum(CF, n_fi)
-      ELSE O.pbp[n_fi][n_chunk] = NestedSum(CF, n_fi)
+      ELSE O.pbp[n_fi][PbpIdx(n_chunk)] = NestedSum(CF, n_fi)
 ObsRunConforms ==
     Done /\ HasObs =>
         RunAgrees \/ PrintT(<<"MISMATCH", "run", n_k, CF, n_fi, n_route, n_chunk, NestedSum(CF, n_fi),
-                              IF n_route = "vec" THEN <<O.vec[n_fi], O.dflt[n_fi]>> ELSE <<O.pbp[n_fi][n_chunk]>>>>)
+                              IF n_route = "vec" THEN <<O.vec[n_fi], O.dflt[n_fi]>> ELSE <<O.pbp[n_fi][PbpIdx(n_chunk)]>>>>)
+
+(***************************************************************************)
+(* C18 audit: further clauses on the base observation.                     *)
+(*  - enumerated a second time AFTER all the integrals (and with a         *)
+(*    half-consumed generator of the first enumeration still alive) the    *)
+(*    instance lists the same product set: pts2 / wts2 / size2;            *)
+(*  - "separable integrands give the product of single-grid integrals":    *)
+(*    single[fi][d] is what Grid.integrate of domain d returned for factor *)
+(*    d of the separable integrand fi (the factor values are emitted by    *)
+(*    TLC); it must be Single(cf, fi, d) and the product over the domains  *)
+(*    must be the multi-domain integral that was observed.                 *)
+(***************************************************************************)
+ReEnumAgrees == /\ O.size2 = Total(CF) /\ O.pts2 = ExpPts /\ O.wts2 = ExpWts
+ObsReEnumConforms ==
+    n_pc = "cfg" /\ HasObs =>
+        ReEnumAgrees \/ PrintT(<<"MISMATCH", "cfg2", n_k, CF, O.st, O.nd, O.size2, Total(CF)>>)
+SepFis == {fi \in 1..NF : Separable(fi)}
+SinglesAgree(fi) ==
+    /\ \A d \in 1..CF.nd : O.single[fi][d] = Single(CF, fi, d)
+    /\ ProdSeq(O.single[fi], 1) = O.vec[fi]
+ObsSinglesConform ==
+    n_pc = "cfg" /\ HasObs =>
+        \A fi \in SepFis :
+            SinglesAgree(fi) \/ PrintT(<<"MISMATCH", "single", n_k, CF, fi, [d \in 1..CF.nd |-> Single(CF, fi, d)], O.single[fi], O.vec[fi]>>)
+
+(***************************************************************************)
+(* C18 audit: FORMS.  The same configuration can be handed to the          *)
+(* implementation in many forms that do not change the mathematical object: *)
+(*   wdt / pdt   floating or integer type of the weight / point arrays      *)
+(*   wsh[g]      weights of catalogue grid g are w / 2^wsh[g] (dyadic, so   *)
+(*               every product and sum stays exact in binary floating point)*)
+(*   psh, pof    points are p / 2^psh + pof / 8 (the tabulated integrand    *)
+(*               inverts the map: its values belong to the abstract point)  *)
+(*   col         1-D grids carry their points as an (n, 1) column           *)
+(*   cls         class of the grid objects: Grid, LocalGrid, or a subclass  *)
+(*               that - like AtomGrid - stores centred points and overrides *)
+(*               the `points` property                                      *)
+(*   alias       equal entries of the grid list are ONE object              *)
+(*   retv, fshv  what the vectorised integrand returns (array type; values  *)
+(*               v / 2^fshv);  retp, fshp the same for point-by-point       *)
+(*   call        keywords, positional, numpy scalars for the options        *)
+(*   first       "enum": enumeration before the integrals, "int": after     *)
+(*   chunks      the chunk sizes tried (two drawn from 1..total+1 and Huge) *)
+(* The law: every observation is the one of the base form, up to the known  *)
+(* power of two: result * 2^(we + fsh) = NestedSum, weights * 2^we = the    *)
+(* product weights (we = sum of wsh over the domains).  The form of         *)
+(* configuration k is drawn here from the pools, as a function of Seed.     *)
+(***************************************************************************)
+WDt == <<"f8", "i8", "f4", "f16", "i4", "f8">>
+PDt == <<"f8", "i8", "f4", "f8">>
+ClsPool == <<"Grid", "Local", "Shift", "Shift">>
+RetV == <<"f8", "i8", "f4", "strided", "f16", "readonly">>
+RetP == <<"float", "int", "f8", "f4", "0d", "f16">>
+CallPool == <<"kw", "pos", "np">>
+\* a small hash of (k, Seed, salt) into 1..n (all intermediate values stay below 2^31)
+MixH(k) == ((k + 101 * (Seed % 97)) % 9973) + 1
+Mix(k, salt, n) == ((((((MixH(k) * MixH(k)) % 100003) * (2 * salt + 1) + MixH(k) * 7919 + salt * 104729) % 100003) \div 7) % n) + 1
+FormOf(k) ==
+    LET cf == Configs[k]
+        wdt == WDt[Mix(k, 1, Len(WDt))]
+        pdt == PDt[Mix(k, 2, Len(PDt))]
+        intw == wdt \in {"i8", "i4"}
+        rv0 == RetV[Mix(k, 3, Len(RetV))]
+        rp0 == RetP[Mix(k, 4, Len(RetP))]
+        \* binary32 weights AND binary32 values would make the whole computation binary32, which cannot hold the sums
+        rv == IF wdt = "f4" /\ rv0 = "f4" THEN "f8" ELSE rv0
+        rp == IF wdt = "f4" /\ rp0 = "f4" THEN "float" ELSE rp0
+        wa == Mix(k, 6, 3) - 1
+        c1 == Mix(k, 11, Total(cf) + 1)
+        c2 == Mix(k, 12, Total(cf) + 1)
+    IN [wdt |-> wdt, pdt |-> pdt,
+        wsh |-> [g \in 1..Len(Cat) |-> IF intw THEN 0 ELSE (g + wa) % 3],
+        psh |-> IF pdt = "i8" THEN 0 ELSE Mix(k, 7, 3) - 1,
+        pof |-> IF pdt = "i8" THEN 0 ELSE <<0, 1, 3>>[Mix(k, 8, 3)],
+        col |-> Mix(k, 9, 4) = 1,
+        cls |-> ClsPool[Mix(k, 13, Len(ClsPool))],
+        alias |-> Mix(k, 10, 2) = 1,
+        retv |-> rv, fshv |-> IF rv = "i8" THEN 0 ELSE Mix(k, 5, 3) - 1,
+        retp |-> rp, fshp |-> IF rp = "int" THEN 0 ELSE Mix(k, 14, 3) - 1,
+        call |-> CallPool[Mix(k, 15, Len(CallPool))],
+        first |-> IF Mix(k, 16, 2) = 1 THEN "enum" ELSE "int",
+        chunks |-> <<c1, c2, Huge>>]
+WE(cf, form) == SumTo([d \in 1..cf.nd |-> form.wsh[Dom(cf)[d]]], cf.nd)
+FormWellFormed(k) ==
+    LET f == FormOf(k) IN
+    /\ f.wdt \in {"i8", "i4"} => \A g \in 1..Len(Cat) : f.wsh[g] = 0
+    /\ f.pdt = "i8" => f.psh = 0 /\ f.pof = 0
+    /\ f.retv = "i8" => f.fshv = 0
+    /\ f.retp = "int" => f.fshp = 0
+    /\ ~(f.wdt = "f4" /\ (f.retv = "f4" \/ f.retp = "f4"))
+    /\ \A i \in 1..2 : f.chunks[i] \in 1..Total(Configs[k]) + 1
+FormsWellFormed == n_pc = "cfg" => FormWellFormed(n_k)
+
+HasObsF == n_k >= 1 /\ n_k <= Len(ObsF)
+OF == ObsF[n_k]
+FormCfgAgrees == /\ OF.st = "ok" /\ OF.nd = CF.nd /\ OF.size = Total(CF)
+                 /\ OF.pts = ExpPts /\ OF.wts = ExpWts
+ObsFormCfgConforms ==
+    n_pc = "cfg" /\ HasObsF =>
+        FormCfgAgrees \/ PrintT(<<"MISMATCH", "fcfg", n_k, CF, OF.st, OF.nd, OF.size, Total(CF)>>)
+FormChunkIdx == {i \in 1..3 : FormOf(n_k).chunks[i] = n_chunk}
+FormRunAgrees ==
+    IF n_route = "vec"
+      THEN OF.vec[n_fi] = NestedSum(CF, n_fi) /\ OF.vecx[n_fi] = NestedSum(CF, n_fi)
+      ELSE \A i \in FormChunkIdx : OF.pbp[n_fi][i] = NestedSum(CF, n_fi)
+ObsFormRunConforms ==
+    Done /\ HasObsF =>
+        FormRunAgrees \/ PrintT(<<"MISMATCH", "frun", n_k, CF, n_fi, n_route, n_chunk, NestedSum(CF, n_fi),
+                                  IF n_route = "vec" THEN <<OF.vec[n_fi], OF.vecx[n_fi]>>
+                                  ELSE [i \in 1..3 |-> OF.pbp[n_fi][i]]>>)
+
+(***************************************************************************)
+(* C18 audit: LARGE products.  BigCfgs are configurations with more points  *)
+(* than the default integration_chunk_size, so that the default            *)
+(* point-by-point call really works in several chunks (the last one        *)
+(* partial), next to chunk sizes that do not divide the total.  They are   *)
+(* judged against the DEFINITION (NestedSum, EnumDecl, ProductOfSingles);  *)
+(* the step-by-step algorithm is model checked for every chunk size on the *)
+(* exhaustive list of small configurations above.                          *)
+(***************************************************************************)
+DefaultChunk == 6000
+BigChunks(cf) == <<1000, 4096, DefaultChunk, Total(cf) - 1, Total(cf), Huge>>
+BigWellFormed ==
+    n_pc = "idle" =>
+        \A b \in 1..Len(BigCfgs) :
+            /\ Total(BigCfgs[b]) > DefaultChunk /\ Total(BigCfgs[b]) % DefaultChunk # 0
+            /\ Total(BigCfgs[b]) % 1000 # 0 \/ Total(BigCfgs[b]) % 4096 # 0
+            /\ SizeCode(BigCfgs[b]) = Total(BigCfgs[b])
+BigCfgAgrees(b) ==
+    LET cf == BigCfgs[b]
+        o == ObsBig[b]
+    IN /\ o.st = "ok" /\ o.nd = cf.nd /\ o.size = Total(cf)
+       /\ o.pts = [t \in 1..Total(cf) |-> POf(cf, EnumDecl(cf)[t])]
+       /\ o.wts = [t \in 1..Total(cf) |-> WOf(cf, EnumDecl(cf)[t])]
+BigRunAgrees(b, fi, ns) ==
+    LET cf == BigCfgs[b]
+        o == ObsBig[b]
+    IN /\ o.vec[fi] = ns /\ o.dflt[fi] = ns
+       /\ \A i \in 1..Len(BigChunks(cf)) : o.pbp[fi][i] = ns
+       /\ Separable(fi) => ns = ProductOfSingles(cf, fi)
+ObsBigConforms ==
+    n_pc = "idle" =>
+        \A b \in 1..Len(ObsBig) :
+            /\ BigCfgAgrees(b) \/ PrintT(<<"MISMATCH", "bigcfg", b>>)
+            /\ \A fi \in 1..NF :
+                  LET ns == NestedSum(BigCfgs[b], fi) IN
+                  BigRunAgrees(b, fi, ns) \/ PrintT(<<"MISMATCH", "bigrun", b, fi, ns>>)
 =============================================================================
